@@ -292,7 +292,8 @@ func genC02(seed, index uint64, tier string) *Plan {
 	n := 2 + g.Weighted(3, 4, 4, 3, 2)
 	for i := 0; i < n; i++ {
 		op := g.Op(i, ho)
-		op.Force = false // replace semantics are a different contract
+		// --force replaces live objects (GET + PUT) instead of patching them; the result must match the manifest just the same
+		op.Force = (op.Op == "upgrade" || op.Op == "rollback") && g.Chance(0.15)
 		st := Step{Op: &op}
 		if i > 0 && i < n-1 && (op.Op == "upgrade" || op.Op == "rollback") && g.Chance(0.2) {
 			// an operation that fails in the middle of the history: afterwards the deployed revision is not the last one.
